@@ -8,7 +8,21 @@
    delivered stream is a prefix of the written one: never missing-in-the-middle, duplicated, reordered or
    foreign bytes; and the client's redialing adapter reports an error to KCP only after Close or a failed
    dial (C17). Liveness ("provided some working proxy eventually becomes available") rests on KCP
-   retransmission and is observed by the rig only. *)
+   retransmission and is observed by the rig only.
+   The ARQ boundary, precisely: kcp-go and smux themselves enter ONLY as the hypothesis [arq_safe] (library
+   boundary; their behaviour is exercised by the rig of lib/checks/c01.py, not proved). That the hypothesis is
+   satisfiable by a NON-TRIVIAL reliable-stream layer is shown by the toy ARQ of Proofs/ToyArqProofs.v, a
+   selective-repeat receiver with the shape of KCP's receive side (conversation id, sequence number, rcv_nxt,
+   reorder buffer drained while contiguous): it is proved safe for all inputs (C01_toy_arq_safe), complete
+   when every segment arrives in any order with duplicates and foreign segments (C01_toy_arq_complete), and
+   the two stream theorems are instantiated with it (…_toy_arq, no ARQ hypothesis left). The toy ARQ is a
+   witness of satisfiability; it is NOT a model of kcp-go.
+   Composition over many carriers (section "multi-carrier composition" below): the premise of the two stream
+   theorems — every packet handed to the receiving endpoint was queued from some one fresh carrier fed an honest
+   cut stream — is PROVED over the server's carrier layer [srun] for every schedule (Proofs/CarrierMultiProofs.v,
+   Proofs/PacketPathMultiProofs.v); what remains as hypothesis is the schedule-level [honest_carriers] (the bytes
+   sent on every carrier that presented the ClientID are a prefix of an honest sender's stream), which the relay
+   section derives, one hop further out, from the model of the proxy's copyLoop (Model/CopyLoop.v). *)
 From Coq Require Import List NArith Bool Arith.
 From Snow Require Import Lib.Wire Model.Encap Proofs.EncapProofs Model.CarrierLayer Proofs.CarrierProofs Proofs.PacketPathProofs.
 From Snow Require Import Model.Redial Proofs.RedialProofs.
@@ -71,3 +85,312 @@ Example C01_example :
   exists w, wire_of ps = Some w /\ queued_from cid w 21 = [[65;66;67]] /\ queued_from cid w 23 = ps /\
             queued_from cid w 12 = [] /\ read_from w 5 [(1%nat, false); (0%nat, false)] = [[65;66;67]].
 Proof. eexists. split; [vm_compute; reflexivity|]. repeat split. Qed.
+
+(* ---------- toy ARQ: the hypothesis is satisfiable ---------- *)
+From Snow Require Import Proofs.ToyArqProofs.
+
+(* The ARQ hypothesis of the two stream theorems holds of the toy selective-repeat ARQ, for all inputs. *)
+Theorem C01_toy_arq_safe : forall conv written sent recv,
+  toy_packets_of conv written sent -> (forall p, In p recv -> In p sent) ->
+  is_prefix (toy_stream_of conv recv) written.
+Proof. exact toy_arq_safe. Qed.
+
+(* ... and not because it delivers nothing: when every segment arrives (any order, any duplicates, foreign or
+   undecodable segments anywhere in between) the whole stream is delivered. *)
+Theorem C01_toy_arq_complete : forall conv (chunks : list bytes) (recv : list bytes),
+  (forall i, (i < length chunks)%nat -> In (toy_seg conv i (nth i chunks [])) recv) ->
+  (forall p, In p recv ->
+     (exists i, (i < length chunks)%nat /\ p = toy_seg conv i (nth i chunks [])) \/ toy_foreign conv p) ->
+  toy_stream_of conv recv = concat chunks.
+Proof. exact toy_arq_complete. Qed.
+
+(* A segment handed to the receiver a second time changes nothing; a foreign segment changes nothing. *)
+Theorem C01_toy_arq_dup_ignored : forall conv l1 p l2 l3,
+  toy_stream_of conv (l1 ++ [p] ++ l2 ++ [p] ++ l3) = toy_stream_of conv (l1 ++ [p] ++ l2 ++ l3).
+Proof. exact toy_dup_ignored. Qed.
+
+Theorem C01_toy_arq_foreign_ignored : forall conv l1 p l2, toy_foreign conv p ->
+  toy_stream_of conv (l1 ++ [p] ++ l2) = toy_stream_of conv (l1 ++ l2).
+Proof. exact toy_foreign_ignored. Qed.
+
+(* The two stream theorems with the ARQ hypothesis discharged by the toy ARQ. *)
+Theorem C01_upstream_stream_prefix_toy_arq :
+  forall conv written sent cid (cs : list ucarrier) recv,
+    length cid = 8%nat -> toy_packets_of conv written sent ->
+    (forall c, In c cs -> wire_of (u_ps c) = Some (u_w c) /\ forall p, In p (u_ps c) -> In p sent) ->
+    (forall p, In p recv -> exists c, In c cs /\ In p (queued_from cid (u_w c) (u_cut c))) ->
+    is_prefix (toy_stream_of conv recv) written.
+Proof. exact upstream_stream_prefix_toy. Qed.
+
+Theorem C01_downstream_stream_prefix_toy_arq :
+  forall conv written sent (cs : list dcarrier) recv,
+    toy_packets_of conv written sent ->
+    (forall c, In c cs -> wire_of (d_ps c) = Some (d_w c) /\ forall p, In p (d_ps c) -> In p sent) ->
+    (forall p, In p recv -> exists c, In c cs /\ In p (read_from (d_w c) (d_cut c) (d_sc c))) ->
+    is_prefix (toy_stream_of conv recv) written.
+Proof. exact downstream_stream_prefix_toy. Qed.
+
+(* non-vacuity, concrete bytes: session 7 writes "ABCDEF" as the three segments AB | C | DEF.
+   - handed the segments reordered, with a duplicate, a segment of session 9 and an undecodable one, the
+     receiver delivers the whole stream;
+   - handed segments 2 and 0 but never segment 1, it delivers exactly the first chunk (a strict prefix);
+   - end to end through the Snowflake layers: one upstream carrier framing [seg2; seg0; seg0; seg1], uncut,
+     yields the whole stream; cut inside the last framed segment it yields the first chunk. *)
+Example C01_toy_arq_example :
+  let conv := 7 in
+  let written := [65;66;67;68;69;70] in
+  let s0 := [7;0;65;66] in let s1 := [7;1;67] in let s2 := [7;2;68;69;70] in
+  let cid := [1;2;3;4;5;6;7;8] in
+  toy_packets_of conv written [s0; s1; s2; s1] /\
+  toy_stream_of conv [s2; [9;0;88;89]; s0; [7]; s2; s1; s0] = written /\
+  toy_stream_of conv [s2; s0; s2] = [65;66] /\
+  exists w, wire_of [s2; s0; s0; s1] = Some w /\
+            queued_from cid w (length (carrier_stream cid w)) = [s2; s0; s0; s1] /\
+            toy_stream_of conv (queued_from cid w (length (carrier_stream cid w))) = written /\
+            queued_from cid w (length (carrier_stream cid w) - 2)%nat = [s2; s0; s0] /\
+            toy_stream_of conv (queued_from cid w (length (carrier_stream cid w) - 2)%nat) = [65;66].
+Proof.
+  cbv zeta. split.
+  - exists [[65;66]; [67]; [68;69;70]]. split; [reflexivity|].
+    intros p [<-|[<-|[<-|[<-|[]]]]];
+      [exists 0%nat | exists 1%nat | exists 2%nat | exists 1%nat]; (split; [cbn; repeat constructor | reflexivity]).
+  - split; [vm_compute; reflexivity|]. split; [vm_compute; reflexivity|].
+    eexists. split; [vm_compute; reflexivity|].
+    repeat (split; [vm_compute; reflexivity|]). vm_compute; reflexivity.
+Qed.
+
+(* ---------- multi-carrier composition: the premise of the stream theorems, proved from the carrier layer ---------- *)
+From Snow Require Import Proofs.CarrierOnceProofs Proofs.CarrierFragProofs Proofs.CarrierMultiProofs Proofs.PacketPathMultiProofs.
+
+(* [C01_upstream_stream_prefix] ASSUMES that every packet handed to the receiving endpoint was queued from some one
+   fresh carrier fed an honest, cut stream. Here that composition is PROVED over the server's carrier layer [srun],
+   for every schedule [ops]: any number of carriers of this and of other sessions, arrivals interleaved and
+   fragmented in any way, closes at any point, carriers of the same session overlapping. *)
+
+(* one carrier among many: when the bytes sent on carrier i are a prefix of an honest carrier stream, what it queued
+   is exactly [queued_from] at the cut it had read (all that was sent while it is alive) *)
+Theorem C01_carrier_queued_from : forall ops i k cid w,
+  nth_error (carriers (srun ops)) i = Some k ->
+  is_prefix (sent_on i ops) (carrier_stream cid w) ->
+  exists cut, k_up k = queued_from cid w cut /\ (k_state k <> K_Dead -> cut = length (sent_on i ops)).
+Proof. exact carrier_queued_from. Qed.
+
+(* packet integrity for the whole session: if every carrier that presented ClientID [cid] was sent a prefix of an
+   honest sender's stream (token, cid, framed packets of the session's sending endpoint), every packet that
+   surfaces under [cid] — read by KCP or still queued — is one of that endpoint's packets *)
+Theorem C01_session_packets_are_senders : forall ops cid sent p,
+  length cid = 8%nat -> honest_carriers ops cid sent ->
+  In (p, cid) (surfaced (srun ops)) -> In p sent.
+Proof. exact session_packets_are_senders. Qed.
+
+(* the stream theorems with the composition discharged: no premise about single carriers is left, only the schedule
+   hypothesis [honest_carriers] (upstream) / what the server's endpoint wrote (downstream), and the ARQ hypothesis *)
+Theorem C01_upstream_stream_prefix_multi_carrier :
+  forall (packets_of : bytes -> list bytes -> Prop) (stream_of : list bytes -> bytes),
+  (forall written sent recv, packets_of written sent -> (forall p, In p recv -> In p sent) ->
+     is_prefix (stream_of recv) written) ->
+  forall written sent cid ops recv,
+    length cid = 8%nat -> packets_of written sent -> honest_carriers ops cid sent ->
+    (forall p, In p recv -> In (p, cid) (surfaced (srun ops))) ->
+    is_prefix (stream_of recv) written.
+Proof. exact upstream_stream_prefix_multi. Qed.
+
+Theorem C01_downstream_stream_prefix_multi_carrier :
+  forall (packets_of : bytes -> list bytes -> Prop) (stream_of : list bytes -> bytes),
+  (forall written sent recv, packets_of written sent -> (forall p, In p recv -> In p sent) ->
+     is_prefix (stream_of recv) written) ->
+  forall written sent cid ops recv,
+    packets_of written sent ->
+    (forall p, In (cid, p) (accepted (srun ops)) -> In p sent) ->
+    (forall p, In p recv -> exists i k cut sc, nth_error (carriers (srun ops)) i = Some k /\ k_cid k = cid /\
+                                            In p (read_from (k_wire k) cut sc)) ->
+    is_prefix (stream_of recv) written.
+Proof. exact downstream_stream_prefix_multi. Qed.
+
+(* ... and with the toy ARQ for the library: nothing hypothetical left but the schedule *)
+Theorem C01_upstream_stream_prefix_multi_carrier_toy_arq : forall conv written sent cid ops recv,
+  length cid = 8%nat -> toy_packets_of conv written sent -> honest_carriers ops cid sent ->
+  (forall p, In p recv -> In (p, cid) (surfaced (srun ops))) ->
+  is_prefix (toy_stream_of conv recv) written.
+Proof.
+  intros conv. exact (upstream_stream_prefix_multi (toy_packets_of conv) (toy_stream_of conv) (toy_arq_safe conv)).
+Qed.
+
+(* the session's packets surface in an order-preserving merge of the carriers' decoded sequences *)
+Theorem C01_session_packets_in_order : forall ops c,
+  subseq (map fst (filter (tagged c) (surfaced (srun ops)))) (pkts_of (filter (entry_cid c) (offered ops))).
+Proof. exact session_packets_in_order. Qed.
+
+(* non-vacuity: a session (ClientID c1) over two OVERLAPPING carriers — carrier 0 is cut inside its second packet,
+   carrier 1 re-sends the second packet — next to a carrier of another session: the hypothesis [honest_carriers]
+   holds of this schedule, and what surfaces under c1 is packet 1 from carrier 0, then packet 2 from carrier 1. *)
+Definition c01_two_carriers : list sop :=
+  let c1 := [1;2;3;4;5;6;7;8] in let c2 := [9;9;9;9;9;9;9;9] in
+  [S_New; S_New; S_New;
+   S_Recv 0 (TOKEN ++ c1 ++ [131; 65; 66]); S_Recv 1 (TOKEN ++ c1); S_Recv 2 (TOKEN ++ c2 ++ [129; 90]);
+   S_Recv 0 [67; 130; 68]; S_Recv 1 [130; 68; 69]; S_Close 0].
+
+Example C01_multi_carrier_example :
+  let c1 := [1;2;3;4;5;6;7;8] in
+  let sent := [[65;66;67]; [68;69]] in
+  honest_carriers c01_two_carriers c1 sent /\
+  map fst (filter (tagged c1) (surfaced (srun c01_two_carriers))) = [[65;66;67]; [68;69]] /\
+  sent_on 0 c01_two_carriers = TOKEN ++ c1 ++ [131; 65; 66; 67; 130; 68] /\
+  pkts_of (filter (entry_cid c1) (offered c01_two_carriers)) = [[65;66;67]; [68;69]].
+Proof.
+  cbn zeta. split; [|vm_compute; repeat split].
+  intros i k Hk Hcid Hnp.
+  destruct i as [|[|[|i]]].
+  - exists [[65;66;67]; [68;69]], [131;65;66;67;130;68;69]. split; [reflexivity|]. split; [intros p H; exact H|].
+    exists [69]. vm_compute. reflexivity.
+  - exists [[68;69]], [130;68;69]. split; [reflexivity|]. split; [intros p [<-|[]]; right; left; reflexivity|].
+    exists []. vm_compute. reflexivity.
+  - exfalso. vm_compute in Hk. injection Hk as <-. vm_compute in Hcid. discriminate.
+  - exfalso. vm_compute in Hk. destruct i; discriminate.
+Qed.
+
+(* ---------- the proxy's relay step (gap round) ----------
+   The theorems above take as premise that the bytes reaching the far end of a carrier are a prefix [firstn k] of what
+   the honest sender put on it. Between the two ends sits the proxy: proxy/lib/snowflake.go copyLoop (two io.Copy
+   goroutines, a once-closed done channel, two deferred Close calls), modelled in Model/CopyLoop.v at the granularity of
+   single Read / Write / Close calls. For ALL read scripts r0 r1 (data chunks of any size, possibly together with EOF or
+   an error), ALL write scripts w0 w1 (short writes, write errors) of the two conns and ALL schedules of the two
+   copiers, copyLoop's own goroutine, the shutdown channel and closes from outside:
+   side 0 = c1 (the client's WebRTC conn), side 1 = c2 (the WebSocket to the server); direction d copies side d -> 1-d. *)
+From Snow Require Import Model.CopyLoop Proofs.CopyLoopProofs.
+Open Scope N_scope.
+
+(* (a) what side 1-d accepted is a prefix of what side d handed out, which is a prefix of side d's script: nothing
+   inserted, nothing reordered, nothing skipped in the middle — in both directions *)
+Theorem C01_relay_prefix : forall (r0 r1 : list cl_ritem) (w0 w1 : list cl_witem) (sched : list cl_step) (d : bool),
+  exists n, s_in (get_side (negb d) (cl_run sched (cl_init r0 w0 r1 w1)))
+            = firstn n (s_out (get_side d (cl_run sched (cl_init r0 w0 r1 w1)))).
+Proof. exact relay_prefix. Qed.
+
+Theorem C01_relay_consumed_prefix : forall (r0 r1 : list cl_ritem) (w0 w1 : list cl_witem) (sched : list cl_step) (s : bool),
+  s_out (get_side s (cl_run sched (cl_init r0 w0 r1 w1)))
+    ++ script_data (s_reads (get_side s (cl_run sched (cl_init r0 w0 r1 w1))))
+  = script_data (if s then r1 else r0).
+Proof. exact consumed_prefix. Qed.
+
+(* a copier parked at a Read (no chunk in hand, no write failed so far) has delivered exactly what it read; parked at a
+   Write it has delivered everything but the chunk it holds *)
+Theorem C01_relay_exact_at_read : forall (r0 r1 : list cl_ritem) (w0 w1 : list cl_witem) (sched : list cl_step) (d : bool),
+  get_dir d (cl_run sched (cl_init r0 w0 r1 w1)) = AtRead ->
+  s_in (get_side (negb d) (cl_run sched (cl_init r0 w0 r1 w1))) = s_out (get_side d (cl_run sched (cl_init r0 w0 r1 w1))).
+Proof. exact relay_exact_at_read. Qed.
+
+Theorem C01_relay_at_write : forall (r0 r1 : list cl_ritem) (w0 w1 : list cl_witem) (sched : list cl_step) (d : bool) c er,
+  get_dir d (cl_run sched (cl_init r0 w0 r1 w1)) = AtWrite c er ->
+  s_in (get_side (negb d) (cl_run sched (cl_init r0 w0 r1 w1))) ++ c = s_out (get_side d (cl_run sched (cl_init r0 w0 r1 w1))).
+Proof. exact relay_at_write. Qed.
+
+(* the form the packet-path theorems consume *)
+Theorem C01_relay_prefix_of : forall (r0 r1 : list cl_ritem) (w0 w1 : list cl_witem) (sched : list cl_step) (d : bool) (str : bytes),
+  is_prefix (script_data (if d then r1 else r0)) str ->
+  exists k, s_in (get_side (negb d) (cl_run sched (cl_init r0 w0 r1 w1))) = firstn k str.
+Proof. exact relay_prefix_of. Qed.
+
+(* (b) copyLoop closes each conn at most once, c1 before c2, both exactly once when it has returned; and it leaves its
+   select only after a copier has finished or the shutdown channel was closed *)
+Theorem C01_relay_closes_at_most_once : forall (r0 r1 : list cl_ritem) (w0 w1 : list cl_witem) (sched : list cl_step) (s : bool),
+  (s_closes (get_side s (cl_run sched (cl_init r0 w0 r1 w1))) <= 1)%nat.
+Proof. exact closes_at_most_once. Qed.
+
+Theorem C01_relay_closes_once_when_returned : forall (r0 r1 : list cl_ritem) (w0 w1 : list cl_witem) (sched : list cl_step),
+  mn (cl_run sched (cl_init r0 w0 r1 w1)) = Returned ->
+  forall s, s_closes (get_side s (cl_run sched (cl_init r0 w0 r1 w1))) = 1%nat.
+Proof. exact closes_once_when_returned. Qed.
+
+Theorem C01_relay_closes_in_order : forall (r0 r1 : list cl_ritem) (w0 w1 : list cl_witem) (sched : list cl_step),
+  (s_closes (side1 (cl_run sched (cl_init r0 w0 r1 w1))) <= s_closes (side0 (cl_run sched (cl_init r0 w0 r1 w1))))%nat.
+Proof. exact closes_in_order. Qed.
+
+Theorem C01_relay_returns_for_a_reason : forall r0 w0 r1 w1 sched,
+  let st := cl_run sched (cl_init r0 w0 r1 w1) in
+  mn st <> Waiting -> (exists d, get_dir d st = Exited) \/ In Shutdown sched.
+Proof. exact leaves_select_for_a_reason. Qed.
+
+(* (c) after the return nothing moves: no byte is accepted by either side, no script advances, no further Close, whatever
+   steps follow (a copier that still held a chunk has dropped it) *)
+Theorem C01_relay_inert_after_return : forall r0 w0 r1 w1 sched more,
+  let st := cl_run sched (cl_init r0 w0 r1 w1) in
+  mn st = Returned -> view (cl_run (sched ++ more) (cl_init r0 w0 r1 w1)) = view st.
+Proof. exact returned_inert. Qed.
+
+Theorem C01_relay_both_copiers_gone_at_return : forall r0 w0 r1 w1 sched,
+  let st := cl_run sched (cl_init r0 w0 r1 w1) in mn st = Returned -> forall d, get_dir d st = Exited.
+Proof. exact returned_both_exited. Qed.
+
+Theorem C01_relay_nothing_late : forall r0 w0 r1 w1 sched, late (cl_run sched (cl_init r0 w0 r1 w1)) = (0%nat, 0%nat).
+Proof. exact late_zero. Qed.
+
+(* the premise of C01_upstream_cut / C01_downstream_cut discharged through the relay *)
+Theorem C01_upstream_via_relay : forall cid ps w r0 w0 r1 w1 sched,
+  length cid = 8%nat -> wire_of ps = Some w ->
+  is_prefix (script_data r0) (carrier_stream cid w) ->
+  let s := s_in (side1 (cl_run sched (cl_init r0 w0 r1 w1))) in
+  exists k' j, pump (S (S (S (length s)))) (fresh s) = (k', firstn j ps) /\
+               k_up k' = firstn j ps /\ (j <> 0%nat -> k_cid k' = cid).
+Proof. exact upstream_via_relay. Qed.
+
+Theorem C01_downstream_via_relay : forall ps w r0 w0 r1 w1 sched sc,
+  wire_of ps = Some w ->
+  is_prefix (script_data r1) w ->
+  let s := s_in (side0 (cl_run sched (cl_init r0 w0 r1 w1))) in
+  exists j e, read_stream s sc = (firstn j ps, e) /\ (e = EOF \/ e = UnexpectedEOF).
+Proof. exact downstream_via_relay. Qed.
+
+(* non-vacuity. One run: side 0 hands out 1 2 3 | 4 5 | 6+EOF, side 1's second Write is short (1 byte): direction 0
+   relays 1 2 3, then 4 of the chunk 4 5, and exits (ErrShortWrite); copyLoop closes c1 then c2 and returns.
+   The prefix is strict (5 was read and lost, 6 never read); direction 1 meanwhile delivered 9 and is woken by the close. *)
+Definition C01_ex_r0 : list cl_ritem := [mk_ritem [1;2;3] CNone; mk_ritem [4;5] CNone; mk_ritem [6] CEof].
+Definition C01_ex_r1 : list cl_ritem := [mk_ritem [9] CNone; mk_ritem [8] CNone].
+Definition C01_ex_w1 : list cl_witem := [w_ok; mk_witem (Some 1%nat) false].
+Definition C01_ex_run (sched : list cl_step) := cl_run sched (cl_init C01_ex_r0 [] C01_ex_r1 C01_ex_w1).
+
+Example C01_relay_example_strict_prefix :
+  let st := C01_ex_run [Rel false; Rel false; Rel true; Rel true; Rel false; Rel true; Rel false; RelMain; RelMain; Rel true; Rel false] in
+  s_in (side1 st) = [1;2;3;4] /\ s_out (side0 st) = [1;2;3;4;5] /\ s_in (side0 st) = [9] /\ s_out (side1 st) = [9;8] /\
+  mn st = Returned /\ s_closes (side0 st) = 1%nat /\ s_closes (side1 st) = 1%nat /\
+  get_dir false st = Exited /\ get_dir true st = Exited /\ ~ In Shutdown [Rel false; RelMain].
+Proof. vm_compute. repeat split. intros [H|[H|[]]]; discriminate. Qed.
+
+(* the hypotheses of the at_read / at_write theorems are met by states that have relayed something *)
+Example C01_relay_example_at_read :
+  let st := C01_ex_run [Rel false; Rel false] in get_dir false st = AtRead /\ s_in (side1 st) = [1;2;3] /\ mn st = Waiting.
+Proof. vm_compute. repeat split. Qed.
+
+Example C01_relay_example_at_write :
+  let st := C01_ex_run [Rel false; Rel false; Rel false; Shutdown] in
+  get_dir false st = AtWrite [4;5] CNone /\ s_in (side1 st) = [1;2;3] /\ mn st = Closing1 /\ In Shutdown [Rel false; Shutdown].
+Proof. vm_compute. repeat split. right. left. reflexivity. Qed.
+
+(* a chunk larger than io.Copy's buffer is relayed in pieces of 32768 bytes *)
+Example C01_relay_example_big_chunk :
+  let st := cl_run [Rel false; Rel false] (cl_init [mk_ritem (gen_bytes (N.to_nat 40000) 7) CNone] [] [] []) in
+  N.of_nat (length (s_in (side1 st))) = 32768 /\ get_dir false st = AtRead /\ N.of_nat (length (s_out (side0 st))) = 32768.
+Proof. vm_compute. repeat split. Qed.
+
+(* via the relay: the client's carrier stream is handed to the relay in two Reads (20 bytes, then the rest with EOF); the
+   relay forwards the first, and is shut down while it holds the second: the server queues exactly the first packet.
+   Downstream the relay forwards 5 of the server's bytes before a write error: the client reads the first packet. *)
+Example C01_via_relay_example :
+  let cid := [1;2;3;4;5;6;7;8] in
+  let ps := [[65;66;67]; [68;69]] in
+  exists w, wire_of ps = Some w /\
+    let up := carrier_stream cid w in
+    let r0 := [mk_ritem (firstn 20 up) CNone; mk_ritem (skipn 20 up) CEof] in
+    let r1 := [mk_ritem (firstn 2 w) CNone; mk_ritem (skipn 2 w) CNone] in
+    let w0 := [w_ok; mk_witem (Some 3%nat) true] in
+    let st := cl_run [Rel false; Rel false; Rel false; Rel true; Rel true; Rel true; Rel true; Shutdown; RelMain; RelMain; Rel false]
+                     (cl_init r0 w0 r1 []) in
+    is_prefix (script_data r0) up /\ is_prefix (script_data r1) w /\ mn st = Returned /\
+    length (s_in (side1 st)) = 20%nat /\
+    snd (pump (S (S (S (length (s_in (side1 st)))))) (fresh (s_in (side1 st)))) = [[65;66;67]] /\
+    length (s_in (side0 st)) = 5%nat /\
+    fst (read_stream (s_in (side0 st)) [(1%nat, false); (0%nat, false)]) = [[65;66;67]].
+Proof.
+  eexists. split; [vm_compute; reflexivity|]. cbv zeta. split; [exists []; vm_compute; reflexivity|].
+  split; [exists []; vm_compute; reflexivity|]. vm_compute. repeat split.
+Qed.
